@@ -1,5 +1,7 @@
 (* C15_dir_archive_agree: the directory loader and the archive loader give the same chart
-   on the same file set (apart from the files the ignore predicate removes). *)
+   on the same file set (apart from the files the ignore predicate removes).  Both hand
+   LoadFiles the same list of (name, BOM-trimmed data); the proof is that the two readers
+   produce that same list. *)
 From Coq Require Import List String Ascii Bool Arith ZArith Lia ZifyBool.
 From Helm Require Import Values.Tree Chart.Paths Chart.PathsProofs Chart.Archive Chart.ArchiveProofs
   Chart.Files Chart.Save Chart.Load Chart.Wf Chart.LoadProofs.
@@ -22,20 +24,6 @@ Proof.
   rewrite (H n (or_introl eq_refl)). rewrite IH by (intros; apply H; now right). reflexivity.
 Qed.
 
-(* an empty file never carries a name that ends in values.schema.json: the only place where
-   the two loaders' nil-vs-empty difference is visible *)
-Definition schema_ok (files : list file) : Prop :=
-  forall f, In f files -> f_data f = "" -> forall p, f_name f <> p ++ "values.schema.json".
-
-Lemma schema_ok_derived files files' :
-  schema_ok files ->
-  (forall g, In g files' -> exists f q, In f files /\ f_name f = q ++ f_name g /\ f_data g = f_data f) ->
-  schema_ok files'.
-Proof.
-  intros H Hd g Hg He p Hn. destruct (Hd g Hg) as (f & q & Hf & Hname & Hdata).
-  apply (H f Hf (eq_trans (eq_sym Hdata) He) (q ++ p)). rewrite Hname, Hn. now rewrite append_assoc.
-Qed.
-
 Section Agree.
   Variable md_merge : meta -> string -> option meta.
   Variable lock_dec : string -> option (option lockv).
@@ -51,107 +39,6 @@ Section Agree.
   Notation LFILES := (load_files md_merge lock_dec parse_values untar sanitize is_semver rest_valid maxt maxf).
   Notation LDIR := (load_dir_walk md_merge lock_dec parse_values untar sanitize is_semver rest_valid maxt maxf).
   Notation LARCH := (load_archive md_merge lock_dec parse_values untar sanitize is_semver rest_valid maxt maxf).
-
-  Lemma lstep_ne st f :
-    (f_data f = "" -> f_name f <> "values.schema.json") -> lstep true st f = lstep false st f.
-  Proof.
-    intros H. unfold load_step. destruct st as [om lk vs sch tpl fls sub].
-    destruct (String.eqb (f_name f) "Chart.yaml"); auto.
-    destruct (String.eqb (f_name f) "Chart.lock"); auto.
-    destruct (String.eqb (f_name f) "values.yaml"); auto.
-    destruct (String.eqb (f_name f) "values.schema.json") eqn:E; auto.
-    destruct (String.eqb (f_data f) "") eqn:D; auto.
-    apply String.eqb_eq in E, D. now apply H in D.
-  Qed.
-
-  Lemma lloop_ne files : forall st,
-    schema_ok files -> lloop true st files = lloop false st files.
-  Proof.
-    induction files as [|f files IH]; intros st H; simpl; auto.
-    rewrite lstep_ne.
-    - destruct (lstep false st f); auto. apply IH. intros g Hg. apply H. now right.
-    - intros He Hn. apply (H f (or_introl eq_refl) He ""). exact Hn.
-  Qed.
-
-  (* where the entries of the subchart table come from *)
-  Lemma lstep_sub ne st f st' :
-    lstep ne st f = inr st' ->
-    forall cn g, In (cn, g) (ls_sub st') ->
-      In (cn, g) (ls_sub st) \/ (f_name f = "charts/" ++ f_name g /\ f_data g = f_data f).
-  Proof.
-    unfold load_step. destruct st as [om lk vs sch tpl fls sub]. intros H cn g Hg.
-    destruct (String.eqb (f_name f) "Chart.yaml"); [inversion H; subst; auto|].
-    destruct (String.eqb (f_name f) "Chart.lock").
-    { destruct (lock_dec (f_data f)); inversion H; subst; auto. }
-    destruct (String.eqb (f_name f) "values.yaml").
-    { destruct (parse_values (f_data f)); inversion H; subst; auto. }
-    destruct (String.eqb (f_name f) "values.schema.json"); [inversion H; subst; auto|].
-    destruct (String.eqb (f_name f) "requirements.yaml").
-    { destruct (md_merge (meta_or_new om) (f_data f)); inversion H; subst; auto. }
-    destruct (String.eqb (f_name f) "requirements.lock").
-    { destruct (lock_dec (f_data f)); inversion H; subst; auto. }
-    destruct (String.prefix "templates/" (f_name f)); [inversion H; subst; auto|].
-    destruct (String.prefix "charts/" (f_name f)) eqn:Ep; [|inversion H; subst; auto].
-    destruct (String.eqb (path_ext (f_name f)) ".prov" && negb (contains_char slash (substring 7 (String.length (f_name f) - 7) (f_name f))));
-      inversion H; subst; auto. simpl in Hg. apply in_app_or in Hg as [|[Hi|[]]]; auto.
-    inversion Hi; subst. right. simpl. split; auto.
-    exact (prefix_split "charts/" (f_name f) Ep).
-  Qed.
-
-  Lemma lloop_sub ne files : forall st st',
-    lloop ne st files = inr st' ->
-    forall cn g, In (cn, g) (ls_sub st') ->
-      In (cn, g) (ls_sub st) \/ exists f, In f files /\ f_name f = "charts/" ++ f_name g /\ f_data g = f_data f.
-  Proof.
-    induction files as [|f files IH]; intros st st' H cn g Hg; simpl in H.
-    - inversion H; subst. auto.
-    - destruct (lstep ne st f) as [|st1] eqn:E; [discriminate|].
-      destruct (IH _ _ H cn g Hg) as [Hi|(f' & Hf' & Hn & Hd)].
-      + destruct (lstep_sub _ _ _ _ E cn g Hi) as [|[Hn Hd]]; auto.
-        right. exists f. split; [now left|auto].
-      + right. exists f'. split; [now right|auto].
-  Qed.
-
-  Lemma cut_first_origin fs g :
-    In g (cut_first fs) -> exists f x, In f fs /\ f_name f = (x ++ "/") ++ f_name g /\ f_data g = f_data f.
-  Proof.
-    induction fs as [|f fs IH]; simpl; intros H; [contradiction|].
-    destruct (snd (split2 (f_name f))) as [rest|] eqn:E.
-    - destruct H as [<-|H].
-      + exists f. unfold split2 in E.
-        pose proof (join_split slash (f_name f)) as Hj.
-        destruct (split_on slash (f_name f)) as [|x [|y l]]; simpl in E; try discriminate.
-        inversion E; subst rest. exists x. split; [now left|]. split; [|reflexivity].
-        simpl f_name. rewrite <- Hj at 1. rewrite join_cons2. unfold sep1. now rewrite append_assoc.
-      + destruct (IH H) as (f' & x & Hf & Hn & Hd). exists f', x. split; [now right|auto].
-    - destruct (IH H) as (f' & x & Hf & Hn & Hd). exists f', x. split; [now right|auto].
-  Qed.
-
-  (* nil-vs-empty file data does not matter when no schema file is empty *)
-  Lemma ne_irrelevant fuel : forall files,
-    schema_ok files -> LFILES fuel true files = LFILES fuel false files.
-  Proof.
-    induction fuel as [|fuel IH]; intros files Hok; [reflexivity|].
-    cbn [load_files]. destruct (load_meta md_merge None files) as [|om]; auto.
-    rewrite (lloop_ne files _ Hok).
-    destruct (lloop false (mkLS om None None None [] [] []) files) as [|st] eqn:El; auto.
-    destruct (ls_meta st); auto.
-    destruct (validate sanitize is_semver rest_valid m); auto.
-    match goal with |- match subs_loop ?F1 ?l with _ => _ end = match subs_loop ?F2 _ with _ => _ end =>
-      rewrite (subs_loop_ext F1 F2 l); [reflexivity|] end.
-    intros n _. cbv beta.
-    destruct (first_char_in n [underscore; dot]); auto.
-    destruct (String.eqb (path_ext n) ".tgz"); auto.
-    rewrite IH; [reflexivity|].
-    apply (schema_ok_derived files); auto.
-    intros g Hg. destruct (cut_first_origin _ _ Hg) as (f1 & x & Hf1 & Hn1 & Hd1).
-    unfold sub_files in Hf1. apply in_map_iff in Hf1 as ([cn f1'] & Hsnd & Hin). simpl in Hsnd. subst f1'.
-    apply filter_In in Hin as [Hin _].
-    destruct (lloop_sub _ _ _ _ El cn f1 Hin) as [[]|(f0 & Hf0 & Hn0 & Hd0)].
-    exists f0, ("charts/" ++ x ++ "/"). split; auto. split.
-    - rewrite Hn0, Hn1. now rewrite !append_assoc.
-    - congruence.
-  Qed.
 
   Definition trimmed (l : list file) : list file := map (fun f => mkFile (f_name f) (trim_bom (f_data f))) l.
   Definition kept (walk : list file) : list file := filter (fun f => negb (eff_ignored ignored (f_name f))) walk.
@@ -170,10 +57,10 @@ Section Agree.
     wf_cname base = true ->
     Forall (fun f => wf_fname (f_name f) = true) walk ->
     let es := map (fun f => tar_entry (base ++ "/" ++ f_name f) (f_data f)) (kept walk) in
-    fits maxt maxf es -> kept walk <> [] -> schema_ok (trimmed (kept walk)) ->
+    fits maxt maxf es -> kept walk <> [] ->
     LARCH fuel (mkTS false es false) = LDIR ignored fuel walk.
   Proof.
-    intros Hb Hw es [Hf1 Hf2] Hne Hok.
+    intros Hb Hw es [Hf1 Hf2] Hne.
     assert (Forall (fun f => (slen (f_data f) <= maxf)%Z) (kept walk)) as Hsz.
     { apply Forall_forall. intros f Hf. rewrite Forall_forall in Hf1.
       apply (Hf1 (tar_entry (base ++ "/" ++ f_name f) (f_data f))). unfold es.
@@ -197,6 +84,6 @@ Section Agree.
     destruct (load_go maxf maxt es) as [res rs]. simpl in HL'. subst res. simpl.
     destruct (trimmed (kept walk)) as [|f0 l0] eqn:Et.
     - unfold trimmed in Et. apply map_eq_nil in Et. contradiction.
-    - rewrite <- Et in *. now apply ne_irrelevant.
+    - reflexivity.
   Qed.
 End Agree.
